@@ -225,6 +225,40 @@ func runC08(r *Run) {
 		rc.Lib.Out().HardCap = true
 		r.S.Count("probe.writes-concurrent-with-the-1009-close")
 	}
+	// writerStalled: in addition the peer stops reading altogether, so the
+	// application's Write stays in the transport with the frame lock for good and
+	// the 1009 Close frame cannot even be started (the library gives up on it after
+	// 5 s). Whatever happens then, the over-limit message must not be continued:
+	// the application reads again and must get errors, never bytes.
+	writerStalled := concWriter && t.Pct(40)
+	if writerStalled {
+		peer.Hold = func() bool { return !rc.Lib.ClosedLocked() }
+		r.S.Count("probe.limit-hit-while-the-writer-is-stalled-for-good")
+		// The over-limit message is re-encoded as one frame whose payload, behind the
+		// limit+1 bytes that may be handed over, looks on the wire like three complete
+		// text frames: an endpoint that went on parsing there would deliver them.
+		if li := len(plan) - 1; !plan[li].comp && eff >= 0 && cur >= 0 && int64(plan[li].size) > cur {
+			lp := &plan[li]
+			inner := peer.Encode(wsref.Frame{Fin: true, Opcode: wsref.OpText, Payload: []byte("bytes of the over-limit message delivered as a message")})
+			wire := append(append(append([]byte{}, inner...), inner...), inner...)
+			head := append([]byte{}, lp.data[:cur+1]...)
+			outer := wsref.Frame{Fin: true, Opcode: typ}
+			if peer.IsClient {
+				outer.Masked, outer.Key = true, peer.Key()
+				for j := range wire {
+					wire[j] ^= outer.Key[(len(head)+j)%4]
+				}
+			}
+			lp.data = append(head, wire...)
+			lp.size = len(lp.data)
+			outer.Payload = lp.data
+			enc := wsref.AppendFrame(nil, peer.Prepare(outer, true))
+			stream = append(stream[:len(stream)-len(pieces[li])], enc...)
+			pieces[li] = enc
+			r.S.Count("probe.frames-embedded-behind-the-limit")
+		}
+	}
+	var rereads []string
 	rc.Lib.In().RChunk = t.Weighted(5, 0, 1, 2, 3)
 	rc.Lib.In().OpBudget = 1500
 	r.S.Stick = []int{0, 60}[t.Draw(2)]
@@ -335,6 +369,15 @@ func runC08(r *Run) {
 			delivered += len(rs.data)
 			results = append(results, rs)
 			if rs.err != nil {
+				if writerStalled {
+					for k := 0; k < 3; k++ {
+						r.S.Park("a.reader.again")
+						typ, d, e := c.Read(bg)
+						if e == nil {
+							rereads = append(rereads, fmt.Sprintf("read %d after the failed one returned a %v message of %d bytes (%q...)", k+1, typ, len(d), clipB(d, 24)))
+						}
+					}
+				}
 				break
 			}
 			if p.newLim != -3 && !asyncLimit {
@@ -365,6 +408,13 @@ func runC08(r *Run) {
 			}
 		}
 		return
+	}
+	if writerStalled {
+		sig += ",writer-stalled"
+		if len(results) > 0 && results[len(results)-1].err != nil && len(rereads) > 0 {
+			r.Violate("read-continues-after-limit", sig, "after the read of the over-limit message had failed (%v) the connection went on delivering: %s", results[len(results)-1].err, rereads[0])
+			return
+		}
 	}
 	// ---- limits
 	var allowance int64 // bytes the library may legitimately have buffered
@@ -432,7 +482,10 @@ func runC08(r *Run) {
 						found = true
 					}
 				}
-				if !found {
+				if !found && writerStalled {
+					// (nothing can be sent: the transport takes no more bytes)
+					r.S.Count("probe.1009-impossible-writer-stalled")
+				} else if !found {
 					r.Violate("no-1009-close", s2, "message %d of %d bytes exceeded the limit %d (error: %v) but no Close frame with status 1009 was sent", i, p.size, curLim, rs.err)
 				} else {
 					r.S.Count("probe.1009-seen")
@@ -458,3 +511,11 @@ func runC08(r *Run) {
 }
 
 var _ = simrt.ChunkAll
+
+// clipB returns at most n leading bytes of b.
+func clipB(b []byte, n int) []byte {
+	if len(b) > n {
+		return b[:n]
+	}
+	return b
+}
